@@ -249,8 +249,17 @@ def eval_pairs(case):
 
 def eval_reject(case):
     from dateutil.relativedelta import relativedelta
+    import decimal
+    import fractions
+
+    def val(x):
+        if isinstance(x, str) and x.startswith('Decimal:'):
+            return decimal.Decimal(x[8:])
+        if isinstance(x, str) and x.startswith('Fraction:'):
+            return fractions.Fraction(x[9:])
+        return x
     try:
-        relativedelta(**case)
+        relativedelta(**{k: val(v_) for k, v_ in case.items()})
     except ValueError:
         return Res(outcome='rejected')
     except Exception as e:
@@ -286,7 +295,10 @@ def run(ctx):
     if ctx.thorough:
         n3 = len(objs(3)[0])
         ctx.explore('pairs-k3xk1', [(3, i, 1) for i in range(n3)], 'eval_pairs', chunk=64)
-    rej = [{'years': 1.5}, {'months': 0.5}, {'years': -0.25, 'days': 1}, {'months': 2.000001}, {'years': 1, 'months': 1.5}]
+    rej = [{'years': 1.5}, {'months': 0.5}, {'years': -0.25, 'days': 1}, {'months': 2.000001}, {'years': 1, 'months': 1.5},
+           # non-integers of the other numeric types (written as text so that replay files can carry them)
+           {'years': 'Decimal:1.5'}, {'months': 'Decimal:-0.5'}, {'years': 'Fraction:3/2'}, {'months': 'Fraction:-7/3'},
+           {'years': 1e-9}, {'years': 'Decimal:2.0000000000000000001'}]
     ctx.explore('reject-non-integer', rej, 'eval_reject', serial=True)
     ctx.coverage_extra.update({
         'states': ctx.counts['pairs'] + len(us),
